@@ -18,7 +18,7 @@ META = dict(
     watchdog_s={"quick": 1500, "thorough": 5400},
     evaluations_counter="cases",
     min={"v2_shapes": 100, "v1_shapes": 100, "permutation_slots_recovered": 100_000, "equivalence_weights": 100, "synthetic_triples": 20,
-         "conversions_back": 100, "reference_identity_v2": 100, "noncontiguous_code_matrices": 200,
+         "conversions_back": 100, "reference_identity_v2": 100, "noncontiguous_code_matrices": 200, "rebuilt_wrappers_checked": 300,
          "equivalence_weights_from_noncontiguous_codes": 20},
     anchors=["tensor/qbits/awq/packed.py:pack_v2",
              "tensor/qbits/awq/packed.py:unpack_v2",
@@ -139,6 +139,20 @@ def check_packing(ctx, oq, AWQPackedTensor, AWQPacking, rng, N, K, packing, reor
             ctx.violation(dict(sig0, kind="unpack_not_inverse", filling=name), dict(desc=desc, shape=list(u.shape)))
         if tuple(P.shape) != (N, K):
             ctx.violation(dict(sig0, kind="packed_reports_wrong_shape"), dict(desc=desc, shape=list(P.shape)))
+        # the wrapper is rebuilt when the tensor is detached (explicitly, or by wrapping it in a Parameter): what it denotes
+        # must survive
+        for how, mk in (("detach", lambda: P.detach()), ("parameter", lambda: torch.nn.Parameter(P, requires_grad=False)),
+                        ("detach_twice", lambda: P.detach().detach())):
+            try:
+                P2 = mk()
+                u2 = oracles.plain(fp.unwrap_param(P2).unpack())
+                d2 = fp.inner(fp.unwrap_param(P2))[0]["_data"]
+            except Exception as e:
+                ctx.violation(dict(sig0, kind="rebuilt_wrapper_raises", how=how, exc=type(e).__name__), dict(desc=desc, msg=str(e)[:200]))
+                continue
+            ctx.count("rebuilt_wrappers_checked")
+            if tuple(u2.shape) != (N, K) or not torch.equal(u2.to(torch.int64), t.to(torch.int64)) or not torch.equal(d2, data):
+                ctx.violation(dict(sig0, kind="rebuilt_wrapper_denotes_other_values", how=how, filling=name), dict(desc=desc))
         want_dtype = torch.int32 if packing == "v1" else torch.int16
         if data.dtype != want_dtype or data.numel() * data.element_size() * 2 != n:
             ctx.violation(dict(sig0, kind="payload_not_dense"), dict(desc=desc, dtype=str(data.dtype), numel=int(data.numel())))
